@@ -191,6 +191,16 @@ def r2_no_carried_state(ctx, chk, rule="C10.2"):
     pt = shared.solver_pointsto(ctx)
     init, solve = shared.solver_entry(ctx)
     problems = 0
+    # a memoising decorator on the solving path is state carried from one solve to the next (the cached nodes are the solved,
+    # pruned ones; a cached answer is blind to everything but the arguments)
+    if rule != "C10.2":
+        for f_ in ctx.prog.all_funcs(shared.SOLVER_MODULES):
+            memo_ = [d for d in f_.node.decorator_list if (call_name(d) if isinstance(d, ast.Call) else attr_path(d)) in shared.MEMO_DECORATORS]
+            if memo_:
+                problems += 1
+                chk.violation(rule, f_.where(memo_[0]), "%s is memoised (`@%s`): what one solve computed (node objects that the solver then changes, an answer for a description that "
+                              "was edited since) is handed to the next one" % (f_.short, src(memo_[0])), expected="no cache that outlives the values it was computed from",
+                              found="@" + src(memo_[0]), construct="%s memoised" % f_.short)
     # module-level names of the solver modules
     for f in scope:
         mod_names = set(f.mod.consts) | {n.id for st in f.mod.tree.body if isinstance(st, (ast.Assign, ast.AnnAssign))
